@@ -76,8 +76,53 @@ func Run(a common.Args) {
 			continue
 		}
 		d.r = common.TraceRand(a.Seed, id)
-		d.random(id, a)
+		if i%6 == 5 {
+			d.dust(id, a)
+		} else {
+			d.random(id, a)
+		}
 	}
+}
+
+// dust: a pool with a dust destination (amount 1..3) next to a large one, triggered / unlocked several
+// times at increasing fractions of the period, so that some triggers vest nothing for the dust
+// destination (amount x elapsed < duration) while time and the other destination move on.
+func (d *drv) dust(id int, a common.Args) {
+	d.reset(id, "dust", map[string]interface{}{"seed": a.Seed})
+	w, r := d.w, d.r
+	owner := d.clients[0]
+	dustDest, bigDest := d.clients[1], d.clients[2]
+	dur := d.pick(600, 1000, 3600)
+	dustAmt := uint64(d.pick(1, 1, 2, 3))
+	big := uint64(d.pick(1000, 9999, 50000))
+	d.add(owner, []destSpec{{dustDest.ID, dustAmt}, {bigDest.ID, big}}, dustAmt+big+uint64(d.pick(0, 50)), d.now(), dur)
+	if len(d.pools) == 0 {
+		w.EndBlock()
+		return
+	}
+	p := d.pools[len(d.pools)-1]
+	start := d.now()
+	fr := []int64{30, 55, 60, 90, 95, 99}
+	for _, f := range fr {
+		if r.Intn(4) == 0 {
+			continue
+		}
+		d.at(start + dur*f/100)
+		switch r.Intn(4) {
+		case 0:
+			d.poolOp(dustDest, "unlock", p)
+		case 1:
+			d.poolOp(bigDest, "unlock", p)
+		default:
+			d.poolOp(owner, "trigger", p)
+		}
+		if r.Intn(3) == 0 {
+			d.poolOp(owner, "trigger", p) // again at the same block time
+		}
+	}
+	d.at(start + dur + 1)
+	d.poolOp(owner, "trigger", p)
+	w.EndBlock()
 }
 
 // ---------------------------------------------------------------- projection
